@@ -1,4 +1,4 @@
-\* AS CODED, expected counterexample (LibMonotone): tree T3w, no restart, 3 honest producers, a one-block fork at the tip: the rollback window lowers a proposal, the next calcLIB result is assigned unconditionally
+\* BEFORE REPAIR c846cf0d (Fixes = {}), counterexample to LibMonotone: tree T3w, no restart, 3 honest producers, a one-block fork at the tip: the rollback window lowers a proposal, the next calcLIB result was assigned unconditionally
 SPECIFICATION Spec
 CONSTANTS
   N = 3
